@@ -97,12 +97,12 @@ IdealRun(text) == LET r == IdealFold(IdealInit, text)
 (* MACHINE *)
 
 CaseComp(n) == "@" \o ToString(n)
-IsCaseComp(c) == \E n \in 1..20 : c = CaseComp(n)
+IsCaseComp(c) == \E n \in 1..60 : c = CaseComp(n)
 
 \* character level view of a dotted string, needed because the code compares case paths with `<`
 Digits == <<"0", "1", "2", "3", "4", "5", "6", "7", "8", "9">>
 CompChars(c) == IF c = "@" THEN <<"@">>
-                ELSE IF IsCaseComp(c) THEN LET n == CHOOSE m \in 1..20 : c = CaseComp(m)
+                ELSE IF IsCaseComp(c) THEN LET n == CHOOSE m \in 1..60 : c = CaseComp(m)
                                            IN IF n < 10 THEN <<"@", Digits[n + 1]>> ELSE <<"@", Digits[(n \div 10) + 1], Digits[(n % 10) + 1]>>
                 ELSE NameChars(c)
 RECURSIVE Chars(_)
